@@ -284,6 +284,29 @@ def audit(ctx, entry):
     return res, build_ok, out if not build_ok else ""
 
 
+def audit_informative(ctx, reg):
+    """theorems registered under "informative" (e.g. the carrier-polymorphic `rfl` form of tie A: the model text IS the
+    source text) are audited like obligations - build with error recovery, #print axioms, forbidden-token grep - and
+    reported, but they are no obligations: a failing one never enters `broken` and never changes the exit status."""
+    info = reg.get("informative")
+    if not info or not info.get("theorems"):
+        return None
+    names = list(info["theorems"])
+    try:
+        # registered modules the informative ones import are elaborated with them when the build needs error recovery
+        deps = [m for m in reg["modules"] if m in module_closure(info["modules"]) and m not in info["modules"]]
+        aud, _, _ = audit(ctx, {"modules": deps + list(info["modules"]), "theorems": names})
+        failing = [t for t in names if not aud[t]["ok"]]
+        res = {"checked": len(names), "holding": len(names) - len(failing), "failing": failing,
+               "modules": list(info["modules"])}
+    except Exception as e:   # never let the informative part disturb the verdict
+        res = {"checked": len(names), "holding": 0, "failing": names, "modules": list(info["modules"]),
+               "error": f"{type(e).__name__}: {e}"}
+    ctx.log(f"informative theorems {res['holding']}/{res['checked']} holding (not obligations)"
+            + (f"; failing: {res['failing'][:6]}{' ...' if len(res['failing']) > 6 else ''}" if res["failing"] else ""))
+    return res
+
+
 def tail_err(out, n=12):
     lines = [l for l in out.split("\n") if "error" in l.lower()]
     return " | ".join(lines[:n])[:1500]
@@ -353,6 +376,7 @@ def _run_check(prop, tier, seed, replay=None):
     if not build_ok:
         ctx.log("proof build errors:", tail_err(bout, 5))
     ctx.log(f"obligations {discharged}/{obligations} discharged")
+    informative = audit_informative(ctx, reg)
     if not ctx.quick and build_ok:
         # thorough tier: independent re-check of the compiled modules (replays every declaration through the kernel)
         try:
@@ -427,6 +451,8 @@ def _run_check(prop, tier, seed, replay=None):
     }
     if getattr(ctx, "leanchecker", None):
         cov["leanchecker"] = ctx.leanchecker
+    if informative is not None:
+        cov["informative"] = informative
     ev = {"property_id": prop, "tier": tier, "seed": seed, "level": "proof", "coverage": cov,
           "assumptions": getattr(mod, "ASSUMPTIONS", []), "wall_s": round(wall, 2),
           "violations": len(unknown) + (1 if (broken and not unknown) else 0)}
